@@ -8,6 +8,10 @@ from collections import Counter
 
 PKG = "vcr/pe"
 HARNESS = ["vcr/pe/zz_verif_c12_test.go"]
+# consumer legs: the real callers of vcr/pe on the verifier side (auth/api/iam) and on the wallet side (vcr/holder)
+IAM_PKG, IAM_HARNESS = "auth/api/iam", ["auth/api/iam/zz_verif_c12_iam_test.go"]
+HOLDER_PKG, HOLDER_HARNESS = "vcr/holder", ["vcr/holder/zz_verif_c12_holder_test.go"]
+HARNESSES = [(PKG, HARNESS, "c12"), (IAM_PKG, IAM_HARNESS, "c12iam"), (HOLDER_PKG, HOLDER_HARNESS, "c12holder")]
 
 REQUIRED = ["pe_total_match", "pe_total_build", "pe_total_validate", "pe_total_resolve_fields",
             "match_sound", "filter_sound_and_complete",
@@ -17,7 +21,7 @@ REQUIRED = ["pe_total_match", "pe_total_build", "pe_total_validate", "pe_total_r
             "credentials_required_of_descriptors", "build_reports_missing_credentials", "validate_rejects_without_complete_selection",
             "wallet_verifier_agree_partial", "wallet_verifier_disagree_witness",
             "old_code_max_zero_selects_all", "old_code_min_above_max_returns_partial",
-            "fact_regex_timeout_bounded", "fact_apply_max_test_first", "fact_apply_rejects_min_above_max",
+            "fact_regex_timeout_bounded", "fact_fulfill_callers_return_on_error", "fact_consumer_wiring", "fact_match_result_consumers", "fact_apply_max_test_first", "fact_apply_rejects_min_above_max",
             "old_code_panics_array_pattern", "old_code_type_only_filter_matches_any_array",
             "old_code_panics_pick_min_only", "old_code_accepts_shadowed_entry",
             "fact_array_case_guarded", "fact_apply_derefs_guarded", "fact_apply_max_guarded",
@@ -385,6 +389,9 @@ def run(ctx):
                 # soundness: each mapped credential satisfies the descriptor it is mapped to
                 for did, fmt, path in maps:
                     mi = re.match(r"\$\.verifiableCredential\[(\d+)\]$", path)
+                    if mi and int(mi.group(1)) != maps.index([did, fmt, path]) and len(maps) == len(vcs):
+                        # Validate and discovery Search zip mappings[i] with credentials[i]
+                        report("C12:match-results-not-aligned", f"mapping number {maps.index([did, fmt, path])} points at credential {mi.group(1)}", i)
                     if not mi or int(mi.group(1)) >= len(vcs) or did not in descs:
                         report("C12:match-mapping-malformed", f"mapping {did}:{path} does not point into the selected credentials", i)
                         continue
@@ -432,6 +439,8 @@ def run(ctx):
                                 counts["sr-bounds-checked"] += 1
                     except Undecided:
                         counts["oracle-undecided"] += 1
+                if len(maps) != len(vcs):
+                    report("C12:match-results-not-aligned", f"{len(maps)} mappings but {len(vcs)} selected credentials (callers zip them by index)", i)
                 if not pd["srs"]:
                     ids = [x[0] for x in maps]
                     if ids != [d["id"] for d in pd["descs"]]:
@@ -584,6 +593,166 @@ def run(ctx):
                         distinct.add((case["n"], "f", mf.group(1)))
                 except Undecided:
                     counts["oracle-undecided"] += 1
+    # ---- consumer legs: the real callers of vcr/pe, fed with the same generated definitions / wallets / envelopes / maps
+    import vlib
+    ops_by_n = {}
+    for k, raw in enumerate(ops_raw):
+        if raw:
+            o = json.loads(raw)
+            ops_by_n[o.get("n")] = (k, o)
+    case_of = {}
+    cur = None
+    for k, raw in enumerate(ops_raw):
+        if raw:
+            o = json.loads(raw)
+            if o.get("op") in ("case", "reject"):
+                cur = k
+            case_of[k] = cur
+
+    def consumer_leg(pkg, files, name, test, outfile):
+        b = ctx.go_test_binary(pkg, files, name)
+        if b is None:
+            ctx.oblige("harness-builds:" + name, False, ctx.harness_error[-1200:])
+            return []
+        ctx.oblige("harness-builds:" + name, True)
+        rc2, log2, _ = ctx.run_harness(b, test, {"VERIF_FEED": ops_p, "VERIF_LIMIT": 60000 if ctx.thorough else 12000},
+                                       outdir=out, timeout=1800, cwd=os.path.join(vlib.REPO, pkg))
+        if rc2 != 0:
+            ctx.oblige("harness-runs:" + name, False, log2[-1200:])
+            return []
+        ctx.oblige("harness-runs:" + name, True)
+        return [json.loads(l) for l in ctx.read_lines(os.path.join(out, outfile)) if l]
+
+    def load_case(k):
+        c = json.loads(ops_raw[case_of[k]])
+        return c, ops_raw[case_of[k]], {(p_, s_): (k_, v_) for p_, s_, k_, v_ in c.get("re", [])}
+
+    def creport(sig, what, k, extra_line=None):
+        """report on the op at line k (replay = its case + the op)"""
+        nonlocal case_line, last_build
+        case_line, last_build = ops_raw[case_of[k]], None
+        report(sig, what, k)
+
+    # verifier side: ParsePresentationSubmission + PEXConsumer.fulfill / credentialMap + resolveInputDescriptorValues
+    for r in consumer_leg(IAM_PKG, IAM_HARNESS, "c12iam", "TestVerifC12Iam", "iam.out"):
+        if r["n"] not in ops_by_n:
+            continue
+        k, op = ops_by_n[r["n"]]
+        line = impl[k] if k < len(impl) else ""
+        c, _, rt = load_case(k)
+        if op.get("re"):
+            rt.update({(p_, s_): (k_, v_) for p_, s_, k_, v_ in op["re"]})
+        pdx = c["def"]
+        pe_ok = line.startswith("validate ok")
+        counts["iam:" + r.get("r", "?")] += 1
+        if r.get("r") == "panic":
+            creport("C12:consumer-panic:iam", f"auth/api/iam consumer panicked: {r.get('panic','')[:80]}", k)
+            continue
+        if r.get("r") == "sub-reject":
+            if pe_ok and op.get("mut") == "orig" and op.get("sub") and all(m["fmt"] for m in op["sub"]):
+                creport("C12:own-submission-rejected-by-submission-schema", "ParsePresentationSubmission rejects the descriptor map the wallet built", k)
+            continue
+        if r.get("otherDefinitionRefused") is False:
+            creport("C12:consumer:fulfill-accepts-submission-for-other-definition", "PEXConsumer.fulfill accepted a submission whose definition_id is not required", k)
+        if r.get("r") == "fulfill-ok" and not pe_ok:
+            creport("C12:consumer:fulfill-accepts-what-validate-rejects", f"PEXConsumer.fulfill accepted, PresentationSubmission.Validate says: {line[:60]}", k)
+        elif r.get("r") == "fulfill-err" and pe_ok:
+            creport("C12:consumer:fulfill-rejects-what-validate-accepts", "PEXConsumer.fulfill refused a submission that Validate accepts", k)
+        if r.get("r") != "fulfill-ok" or not pe_ok:
+            continue
+        if not r.get("fulfilled") or not r.get("secondFulfillRefused"):
+            creport("C12:consumer:fulfill-bookkeeping", "after fulfill the definition is not marked fulfilled / can be fulfilled twice", k)
+        accepted = dict(x.split("=", 1) for x in re.match(r"validate ok \{(.*)\}$", line).group(1).split(",") if x)
+        raw_of, view_of = {}, {}
+        cr = {x["name"]: x for x in c["creds"]}
+        for row in op.get("pres", []):
+            for x in row:
+                nm = x.get("ref") or x["full"]["name"]
+                rw = x.get("raw") if "ref" in x else x["full"]["raw"]
+                raw_of.setdefault(nm, rw)
+                view_of[rw] = dict(cr[x["ref"]], raw=rw) if "ref" in x else x["full"]
+        want = {i: raw_of.get(nm) for i, nm in accepted.items()}
+        if r.get("credentialMap") != want and len({d["id"] for d in pdx["descs"]}) == len(pdx["descs"]):
+            creport("C12:consumer:credentialMap-differs-from-validated-mapping",
+                    f"PEXConsumer.credentialMap() = {r.get('credentialMap')} but the validated mapping is {want}", k)
+        flds = r.get("fields")
+        if isinstance(flds, dict) and isinstance(r.get("credentialMap"), dict) and len({d["id"] for d in pdx["descs"]}) == len(pdx["descs"]):
+            try:
+                for fk, fv in flds.items():
+                    okv = False
+                    for d in pdx["descs"]:
+                        view = view_of.get(r["credentialMap"].get(d["id"]))
+                        if view is None:
+                            continue
+                        for f in d.get("fields", []):
+                            if f.get("id") == fk and field_value_ok(f, view["tree"], rt, json.dumps(fv, sort_keys=True, separators=(",", ":"))):
+                                okv = True
+                    if not okv:
+                        creport("C12:consumer:field-value-not-faithful",
+                                f"resolveInputDescriptorValues reports {fk}={json.dumps(fv)[:60]}, not a value of the mapped credential", k)
+                counts["iam:fields-checked"] += 1
+            except Undecided:
+                counts["oracle-undecided"] += 1
+            if flds and r.get("duplicateFieldRefused") is False:
+                creport("C12:consumer:duplicate-field-not-refused", "the same field id mapped by two presentation definitions was not refused", k)
+
+    # wallet side: presenter.buildSubmission, then what the verifier does with its output
+    for r in consumer_leg(HOLDER_PKG, HOLDER_HARNESS, "c12holder", "TestVerifC12Holder", "holder.out"):
+        if r["n"] not in ops_by_n:
+            continue
+        k, op = ops_by_n[r["n"]]
+        line = impl[k] if k < len(impl) else ""
+        c, _, rt = load_case(k)
+        pdx = c["def"]
+        cr = {x["name"]: x for x in c["creds"]}
+        counts["holder:" + r.get("r", "?") + (":" + r["verdict"] if "verdict" in r else "")] += 1
+        if r.get("r") == "panic":
+            creport("C12:consumer-panic:holder", f"presenter.buildSubmission panicked: {r.get('panic','')[:80]}", k)
+            continue
+        mb = re.match(r"build ok vcs=\[(.*?)\] map=(\[.*\])$", line)
+        if r.get("r") in ("err:format", "err:sign"):
+            continue
+        if r.get("r") == "err:nomatch":
+            if mb:
+                creport("C12:presenter:fails-although-build-succeeds", "presenter.buildSubmission fails for a wallet on which Build succeeds", k)
+            continue
+        if not mb:
+            creport("C12:presenter:submission-although-build-fails", f"presenter.buildSubmission returned a submission, Build says: {line[:60]}", k)
+            continue
+        sel = [cr[x] for x in mb.group(1).split(",") if x and x in cr]
+        if r.get("keys") != [x["key"] for x in sel]:
+            creport("C12:presenter:presentation-credentials-differ-from-sign-instruction",
+                    f"the presentation holds {len(r.get('keys', []))} credential(s) {r.get('keys')}, the sign instruction selected {[x['name'] for x in sel]}", k)
+            continue
+        if r.get("map") != mb.group(2) or r.get("definitionId") is False:
+            creport("C12:presenter:descriptor-map-differs-from-build", f"presenter returned {r.get('map')}, Build {mb.group(2)}", k)
+            continue
+        unique_ids = len({d["id"] for d in pdx["descs"]}) == len(pdx["descs"])
+        if not unique_ids or any(x["fmt"] == "" for x in sel):
+            counts["holder:outside-domain"] += 1
+            continue
+        v = r.get("verdict")
+        if v == "submission-schema-reject":
+            creport("C12:own-empty-submission-rejected-by-submission-schema" if r.get("map") == "[]" else "C12:own-submission-rejected-by-submission-schema",
+                    f"the verifier's ParsePresentationSubmission rejects the wallet's own marshalled submission (descriptor map {r.get('map')})", k)
+        elif v in ("validate-err", "envelope-reject"):
+            try:
+                wallet = [c["creds"][i] for i in op["wallets"][0]]
+                cw = [x["name"] if x else None for x in ref_candidates(pdx, wallet, rt)]
+                cs = [x["name"] if x else None for x in ref_candidates(pdx, sel, rt)]
+                if cw != cs:
+                    creport("C12:wallet-verifier-disagree:credential-matches-several-descriptors",
+                            f"verifier rejects the presenter's own submission ({r.get('validateErr','')[:50]}): re-matching the presented credentials selects differently", k)
+                else:
+                    creport("C12:presenter:own-submission-rejected", f"verifier rejects the presenter's own submission: {r.get('validateErr', v)[:80]}", k)
+            except Undecided:
+                counts["oracle-undecided"] += 1
+        elif v == "ok":
+            ids = [x.split(":", 1)[0] for x in mb.group(2)[1:-1].split(",") if x]
+            want = {i: x["key"] for i, x in zip(ids, sel)}
+            if r.get("accepted") != want and len(ids) == len(sel):
+                creport("C12:presenter:accepted-mapping-differs", f"verifier accepted {r.get('accepted')}, the wallet mapped {want}", k)
+
     ctx.oblige("oracle:reference-matcher(impl)", oracle_bad == 0, f"{oracle_bad} disagreements with the reference matcher / panics")
 
     # ---- correspondence model vs implementation
